@@ -1,4 +1,5 @@
 import MxV.Props.C02
+import MxV.Props.Slotted
 /-! # C18 — xsd_check=False switches off structural checking and nothing else
 An unchecked element keeps its children in one list: every add succeeds and appends, the serialised
 order is the insertion order (`unchecked_*`). For children supplied in a schema-valid order the
@@ -6,7 +7,8 @@ checked element serialises them in that very order too (`unchecked_eq_checked`, 
 both outputs coincide. The per-node gating of the final checks is modelled in the driver
 (`finalChecks`: a node is validated iff it is checked and reached from a checked root) and tied to
 the code by the correspondence run on trees mixing checked and unchecked nodes. Partial: the
-byte-identity claim inherits C02's domain (Tame content models). -/
+byte-identity claim inherits C02's domain (Tame content models; `unchecked_eq_checked_slotted`
+widens it to the 78 Slotted ones through the `Mslot` model). -/
 namespace C18
 open Msimple
 
@@ -28,8 +30,16 @@ theorem unchecked_insertion_order (w : List Nat) (i : Nat) :
 theorem unchecked_eq_checked (p : Particle) (ht : isTame p = true) (w : List Nat) (hw : p.Lang w) :
     names (ordered p (zipIds 1 w)) = names (orderedU (zipIds 1 w)) := by
   rw [(C02.C02_tame p ht w hw).2.2]; simp [orderedU, names_zipIds]
+/-- the same on the wider Slotted class (78 of the 94 content models, model `Mslot`) -/
+theorem unchecked_eq_checked_slotted (p : Particle) (hs : Mslot.isSlotted p = true) (w : List Nat) (hw : p.Lang w) :
+    names (Mslot.ordered p (zipIds 1 w)) = names (orderedU (zipIds 1 w)) := by
+  rw [(Slotted.C02_slotted p hs w hw).2.2]; simp [orderedU, names_zipIds]
+
+/-- non-vacuity: `bend` (a sequence with a choice slot) is Slotted and `[0, 2]` is one of its words -/
+example : Mslot.isSlotted Slotted.bendT = true := by decide
 end C18
 
 #print axioms C18.unchecked_add_total
 #print axioms C18.unchecked_insertion_order
 #print axioms C18.unchecked_eq_checked
+#print axioms C18.unchecked_eq_checked_slotted
